@@ -4,6 +4,7 @@ import DoitModel.Proofs.C15Target
 import DoitModel.Proofs.C15Clos
 import DoitModel.Proofs.C15Redef
 import DoitModel.Model.DelayedSel
+import DoitModel.Proofs.DelayedX
 /-! # C15 — delayed task creation happens once, after its trigger
 
 Property theorems only (model: `Model/Delayed.lean`, `Model/DelayedSel.lean`; invariants: `Proofs/Delayed*.lean`).
@@ -332,5 +333,90 @@ example : selectedAndBase (exPre true) [⟨2, 1⟩, ⟨3, 3⟩] = ([2, 11], some
     `loader.basename` ended up naming it, so the creator's tasks were created as `1:x:<sub>` -/
 theorem pinned_filter_matches_subtask_placeholder :
     selectedAndBase (exPre false) [⟨2, 1⟩, ⟨3, 3⟩] = ([2, 11, 12], some 2) := by decide
+
+/-! ### wave 5 — created tasks with `setup` / `calc_dep` / `getargs` edges: the extended system `Model/DelayedX.lean`
+
+`DelayedX` is the transition system above plus the calc_dep section (`node.calc_dep`, `wait_run_calc`,
+`_process_calc_dep_results`: delivered task_deps are appended to the `Task` object and to `node.task_dep`), the setup
+section (`yield this_task` twice, `select_task` twice, `wait_select`) and getargs (= a setup edge).  K runs through it
+for every case in which a created task has one of these edges.  The theorems above are about the `task_dep`-only
+system (unchanged, same names and strength); about `DelayedX` the following is proved / stated. -/
+
+/-- **created task starts only after task_dep AND calc_dep AND setup** (statement; NOT proved): in every reachable
+    state of the extended system every `start t` in the trace is preceded by a good report of every task_dep
+    (what calc_deps delivered included) and every setup-task (getargs sources included) of the object the node of `t`
+    holds, and by a terminal report of every calc_dep.  The driver evaluates exactly this predicate on the model run
+    that accepts each implementation trace (evidence counter `X:startAfterOK-false-on-accepted-model-run`, must stay
+    absent); the monitor `obeyOK` evaluates the stronger "good report of all of them" on the implementation's trace.
+    Missing for a proof: the `NodeG`-style invariant of `Proofs/C15Obey*.lean` redone over `DelayedX.Node`
+    (`waitCalc` next to `waitRun`, the second waiting phase between the two selections). -/
+def C15X_created_start_after_all_full : Prop :=
+  ∀ (inp : Input) (s : DelayedX.Sys), DelayedX.Reach inp s →
+    DelayedX.startAfterOK (fun t => DelayedX.nodeDeps s t ++ DelayedX.nodeSetup s t) (DelayedX.nodeCalc s) s.events = true
+
+/-- proved part, every runner and schedule: a step that writes `start n` is a `select_task(n)` on a node that is not
+    marked `bad` (no failed / ignored task_dep, calc_dep or setup-task was seen by `parent_status`), and for a task with
+    setup-tasks — a created one as well — it is the SECOND selection (`run_status == 'run'`): the first selection hands
+    the node back so that `_add_task` schedules the setup-tasks (`DelayedX.selectStep`), it never starts the task. -/
+theorem C15X_created_start_after_all_partial (inp : Input) (s s' : DelayedX.Sys) (c : Choice)
+    (h : DelayedX.step inp s c = some s') (n : Name) (hev : s'.events = Ev.start n :: s.events) :
+    s.susp = .yielded n ∧ ∃ nd, s.nodes n = some nd ∧ nd.bad = false ∧
+      ((nd.task.setup = [] ∧ nd.status = .none ∧ inp.utd n = false) ∨
+       (nd.task.setup ≠ [] ∧ nd.status = .run ∧ n ∉ s.running)) :=
+  DelayedX.step_start_guard h n hev
+
+/-- the dispatcher half of the extended system (`_add_task` with its calc_dep, loader and setup sections,
+    `_get_next_node`, `_check_deadlock`) writes no event except a creator evaluation: setup-tasks and calc_deps are
+    scheduled, never started, by it -/
+theorem C15X_dispatcher_writes_only_creator (inp : Input) (s : DelayedX.Sys) :
+    (DelayedX.dtick inp s).events = s.events ∨ ∃ c, (DelayedX.dtick inp s).events = Ev.creator c :: s.events :=
+  DelayedX.dtick_quiet inp s
+
+/-- non-vacuity, all three edge kinds on ONE created task: trigger 0; placeholder 1 (creator 0, `executed = 0`); the
+    creator yields task 3 and task 1 with `task_dep=[7]`, `setup=[4]` + `getargs` from 3 (`setup_tasks = [4, 3]`),
+    `calc_dep=[5]`; calc task 5 delivers `task_dep=[6]`. -/
+def exAll : Input :=
+  { tasks0 := [(0, { act := true, oid := 0 }), (1, { deps := [0], loader := some 0, oid := 1 }),
+               (4, { act := true, oid := 4 }), (5, { act := true, oid := 5 }), (6, { act := true, oid := 6 }),
+               (7, { act := true, oid := 7 })]
+    targets0 := []
+    creatorOf := fun _ => 0
+    execOf := fun _ => some 0
+    baseOf := fun _ => none
+    gtarget := fun _ => 0
+    gtasks0 := fun _ => []
+    make := fun _ _ => [{ name := 3 }, { name := 1, deps := [7], setup := [4, 3], calcDep := [5] }]
+    delivers := fun n => if n = 5 then [6] else []
+    sel := [1] }
+
+/-- the created task 1 starts last: after its calc_dep 5, its task_dep 7, the delivered task_dep 6 and — scheduled only
+    after its first selection — its setup-tasks 4 and 3; the statement `C15X_created_start_after_all_full` holds of
+    the run, over the edges the node holds at the end (`[7, 6]`, `[4, 3]`, `[5]`) -/
+example :
+    (DelayedX.autoRun exAll 400 (DelayedX.init exAll)).susp = .stopIter ∧
+    (DelayedX.autoRun exAll 400 (DelayedX.init exAll)).events.reverse =
+      [.start 0, .success 0, .creator 0, .start 5, .success 5, .start 7, .success 7, .start 6, .success 6,
+       .start 4, .success 4, .start 3, .success 3, .start 1, .success 1] ∧
+    (DelayedX.nodeDeps (DelayedX.autoRun exAll 400 (DelayedX.init exAll)) 1,
+     DelayedX.nodeSetup (DelayedX.autoRun exAll 400 (DelayedX.init exAll)) 1,
+     DelayedX.nodeCalc (DelayedX.autoRun exAll 400 (DelayedX.init exAll)) 1) = ([7, 6], [4, 3], [5]) ∧
+    DelayedX.startAfterOK
+      (fun t => DelayedX.nodeDeps (DelayedX.autoRun exAll 400 (DelayedX.init exAll)) t ++
+                DelayedX.nodeSetup (DelayedX.autoRun exAll 400 (DelayedX.init exAll)) t)
+      (DelayedX.nodeCalc (DelayedX.autoRun exAll 400 (DelayedX.init exAll)))
+      (DelayedX.autoRun exAll 400 (DelayedX.init exAll)).events = true := by
+  decide
+
+example : DelayedX.Reach exAll (DelayedX.autoRun exAll 400 (DelayedX.init exAll)) :=
+  DelayedX.autoRun_reach 400 _ DelayedX.Reach.init
+
+/-- the guard theorem is not vacuous: the step that starts the created task 1 of `exAll` exists (state after 107
+    default steps is `yielded 1` with `run_status = run`, i.e. its second selection) -/
+example :
+    ∃ k, (DelayedX.autoRun exAll k (DelayedX.init exAll)).susp = .yielded 1 ∧
+      (((DelayedX.autoRun exAll k (DelayedX.init exAll)).nodes 1).map fun nd => (nd.status, nd.task.setup)) =
+        some (.run, [4, 3]) := by
+  refine ⟨107, ?_⟩
+  decide
 
 end DoitModel.C15
